@@ -276,6 +276,11 @@ Definition value_number (v : text) : option dec :=
   | None => None
   end.
 
+(* excellent/types/number.go XNumber.UnmarshalJSON (fixes 4759c25, a7d1df4): a stored contact number is read iff its
+   decimal exponent lies within +-max(1000, length of the stored JSON text) *)
+Definition stored_number_ok (len : N) (ex : Z) : bool :=
+  let lim := Z.max max_number_value_exponent (Z.of_N len) in ((- lim <=? ex) && (ex <=? lim))%Z.
+
 (* `asNumber, _ := c.ValueAsNumber()`: the zero decimal on error *)
 Definition value_as_number (v : text) : dec :=
   match value_number v with Some d => d | None => dec_zero end.
